@@ -216,6 +216,23 @@ class Ctx(object):
         """Obj constant standing for a heap object with concrete identity."""
         if ref.rid in self._boxed:
             return self._boxed[ref.rid]
+        h0 = self.heap.get(ref.rid)
+        if isinstance(h0, HDict) and h0.conc is not None and h0.conc and all(isinstance(k, str) for k in h0.conc) \
+                and len(h0.conc) <= 6 and not getattr(self, '_boxing_dict', False):
+            # a small literal dict stored into an Obj slot keeps its content (value semantics:
+            # sound as long as it is not mutated afterwards, which the frame checks would flag)
+            from .values import box, box_map, unbox_map_dom, unbox_map_arr, tag
+            self._boxing_dict = True
+            try:
+                dom = Z.set_of(Z.Str, [z3.StringVal(k) for k in h0.conc])
+                arr = z3.K(Z.Str, Z.NONE)
+                for k, v in h0.conc.items():
+                    arr = z3.Store(arr, z3.StringVal(k), box(v, self))
+            finally:
+                self._boxing_dict = False
+            b = box_map(dom, arr)
+            self.pc.append(z3.And(unbox_map_dom(b) == dom, unbox_map_arr(b) == arr, tag(b) == 9, b != Z.NONE))
+            return b
         c = Z.fresh('ref%d' % ref.rid, Z.Obj)
         for other in self.unique_objs:
             self.pc.append(c != other)
